@@ -144,8 +144,10 @@ class StateMachine(metaclass=StateMachineMetaclass):
 
         self._listeners: Dict[Any, Any] = {}
 
-        self._register_callbacks([])
-        self.add_listener(*listeners.keys())
+        # Listeners given to the constructor are registered together with the machine and the model
+        # (same resolution order, same allowed references); the ones added later through `add_listener`.
+        self._register_callbacks([o for o, at_init in listeners.items() if at_init])
+        self.add_listener(*(o for o, at_init in listeners.items() if not at_init))
         # The listeners may bring async callbacks: select the engine only after they are attached,
         # and restore a pending initial activation (a not yet activated async machine).
         self._callbacks.async_or_sync()
@@ -188,7 +190,7 @@ class StateMachine(metaclass=StateMachineMetaclass):
         return self
 
     def _register_callbacks(self, listeners: List[object]):
-        self._listeners.update({listener: None for listener in listeners})
+        self._listeners.update({listener: True for listener in listeners})
         self._add_listener(
             Listeners.from_listeners(
                 (
